@@ -356,6 +356,154 @@ def builders():
         k2 = O.KroneckerProductLinearOperator(O.DenseLinearOperator(c), O.DenseLinearOperator(d))
         return O.SumKroneckerLinearOperator(k1, k2), {"a": a, "b": b, "c": c, "d": d}
 
+    # ---- nestings whose inner `_matmul` may return (a view of) its argument: Identity / Zero inside every wrapper
+    def ident(n, batch=()):
+        return O.IdentityLinearOperator(n, batch_shape=torch.Size(batch), dtype=torch.float64)
+
+    def nest(name, psd=True):
+        def deco(f):
+            B[name] = (f, psd)
+            NESTED.add(name)
+            return f
+        return deco
+
+    @nest("AddedDiag(Triangular(Identity))")
+    def _(D, L):
+        d = L(D.pos(D.n))
+        return O.AddedDiagLinearOperator(O.TriangularLinearOperator(ident(D.n, d.shape[:-1])), O.DiagLinearOperator(d)), {"diag": d}
+
+    @nest("AddedDiag(Kronecker(Identity,Identity))")
+    def _(D, L):
+        d = L(D.pos(6))
+        k = O.KroneckerProductLinearOperator(ident(2, d.shape[:-1]), ident(3, d.shape[:-1]))
+        return O.AddedDiagLinearOperator(k, O.DiagLinearOperator(d)), {"diag": d}
+
+    @nest("AddedDiag(BatchRepeat1(Identity))")
+    def _(D, L):
+        d = L(D.pos(1, D.n))
+        return O.AddedDiagLinearOperator(O.BatchRepeatLinearOperator(ident(D.n), torch.Size([1])), O.DiagLinearOperator(d)), {"diag": d}
+
+    @nest("AddedDiag(Root(Identity))")
+    def _(D, L):
+        d = L(D.pos(D.n))
+        return O.AddedDiagLinearOperator(O.RootLinearOperator(ident(D.n, d.shape[:-1])), O.DiagLinearOperator(d)), {"diag": d}
+
+    @nest("Identity.root_decomposition()+Diag")
+    def _(D, L):
+        d = L(D.pos(D.n))
+        return ident(D.n, d.shape[:-1]).root_decomposition() + O.DiagLinearOperator(d), {"diag": d}
+
+    @nest("Sum(Identity,Dense)")
+    def _(D, L):
+        a = L(D.psd())
+        return O.SumLinearOperator(ident(D.n, a.shape[:-2]), O.DenseLinearOperator(a)), {"a": a}
+
+    @nest("Sum(Identity,Identity)")
+    def _(D, L):
+        return O.SumLinearOperator(ident(D.n), ident(D.n)), {}
+
+    @nest("PsdSum(Identity,Root)")
+    def _(D, L):
+        r = L(D.mat(D.n, 2))
+        return O.PsdSumLinearOperator(ident(D.n, r.shape[:-2]), O.RootLinearOperator(r)), {"root": r}
+
+    @nest("ConstantMul(Identity)")
+    def _(D, L):
+        c = D.pos(1).squeeze(0)
+        return O.ConstantMulLinearOperator(ident(D.n), c), {"const": c}
+
+    @nest("Matmul(Identity,Dense)", psd=False)
+    def _(D, L):
+        a = L(D.psd())
+        return O.MatmulLinearOperator(ident(D.n, a.shape[:-2]), O.DenseLinearOperator(a)), {"a": a}
+
+    @nest("Matmul(Dense,Identity)", psd=False)
+    def _(D, L):
+        a = L(D.psd())
+        return O.MatmulLinearOperator(O.DenseLinearOperator(a), ident(D.n, a.shape[:-2])), {"a": a}
+
+    @nest("Matmul(Identity,Identity)", psd=False)
+    def _(D, L):
+        return O.MatmulLinearOperator(ident(D.n), ident(D.n)), {}
+
+    @nest("Kronecker(Identity,Dense)")
+    def _(D, L):
+        b = L(D.psd(3))
+        return O.KroneckerProductLinearOperator(ident(2, b.shape[:-2]), O.DenseLinearOperator(b)), {"b": b}
+
+    @nest("Kronecker(Dense,Identity)")
+    def _(D, L):
+        a = L(D.psd(2))
+        return O.KroneckerProductLinearOperator(O.DenseLinearOperator(a), ident(3, a.shape[:-2])), {"a": a}
+
+    @nest("Kronecker(Identity,Identity)")
+    def _(D, L):
+        return O.KroneckerProductLinearOperator(ident(2), ident(3)), {}
+
+    @nest("Root(Identity)")
+    def _(D, L):
+        return O.RootLinearOperator(ident(D.n)), {}
+
+    @nest("Triangular(Identity)", psd=False)
+    def _(D, L):
+        return O.TriangularLinearOperator(ident(D.n)), {}
+
+    @nest("Chol(Triangular(Identity))")
+    def _(D, L):
+        return O.CholLinearOperator(O.TriangularLinearOperator(ident(D.n))), {}
+
+    @nest("BatchRepeat1(Identity)")
+    def _(D, L):
+        return O.BatchRepeatLinearOperator(ident(D.n), torch.Size([1])), {}
+
+    @nest("BatchRepeat2(Identity)")
+    def _(D, L):
+        return O.BatchRepeatLinearOperator(ident(D.n), torch.Size([2])), {}
+
+    @nest("BlockDiag(Identity)")
+    def _(D, L):
+        return O.BlockDiagLinearOperator(ident(3, (2,))), {}
+
+    @nest("BlockDiag1(Identity)")
+    def _(D, L):
+        return O.BlockDiagLinearOperator(ident(D.n, (1,))), {}
+
+    @nest("BlockInterleaved(Identity)")
+    def _(D, L):
+        return O.BlockInterleavedLinearOperator(ident(3, (2,))), {}
+
+    @nest("BlockInterleaved1(Identity)")
+    def _(D, L):
+        return O.BlockInterleavedLinearOperator(ident(D.n, (1,))), {}
+
+    @nest("SumBatch1(Identity)")
+    def _(D, L):
+        return O.SumBatchLinearOperator(ident(D.n, (1,))), {}
+
+    @nest("Interpolated(Identity)")
+    def _(D, L):
+        return O.InterpolatedLinearOperator(ident(D.n)).add_jitter(1.0), {}
+
+    @nest("Masked(Identity)", psd=False)
+    def _(D, L):
+        m = torch.tensor([True, False, True, True, False][:D.n])
+        return O.MaskedLinearOperator(ident(D.n), m, m), {"mask": m}
+
+    @nest("Cat(Identity,Dense)", psd=False)
+    def _(D, L):
+        b = L(D.mat(3, D.n))
+        return O.CatLinearOperator(ident(D.n, b.shape[:-2]), O.DenseLinearOperator(b), dim=-2), {"b": b}
+
+    @nest("Mul(Root(Identity),Root)")
+    def _(D, L):
+        b = L(D.mat(D.n, 2))
+        return O.MulLinearOperator(O.RootLinearOperator(ident(D.n, b.shape[:-2])), O.RootLinearOperator(b)).add_jitter(1.0), {"b": b}
+
+    @nest("ConstantDiag1", psd=True)
+    def _(D, L):
+        d = torch.ones(1, dtype=torch.float64)
+        return O.ConstantDiagLinearOperator(d, diag_shape=D.n), {"diag": d}
+
     return B
 
 
@@ -625,6 +773,69 @@ def operations():
                 t.grad = None
         return None
 
+    @reg("matmul_identity_rhs")
+    def _(op, D, L, A):
+        A["rhs"] = L(torch.eye(n_of(op), dtype=torch.float64))
+        return op.matmul(A["rhs"])
+
+    @reg("backward_sqrt_inv_matmul", psd=True)
+    def _(op, D, L, A):
+        A["rhs"], A["lhs"] = L(D.mat(n_of(op), 2)), L(D.mat(3, n_of(op)))
+        leaf = [t for t in op.representation() if t.is_floating_point() and t.is_leaf]
+        for t in leaf:
+            t.requires_grad_(True)
+        rhs = A["rhs"]
+        if not leaf:
+            if not rhs.is_leaf:
+                return None
+            rhs.requires_grad_(True)
+        try:
+            r, q = op.sqrt_inv_matmul(rhs, A["lhs"])
+            (r.sum() + q.sum()).backward()
+            r2 = op.sqrt_inv_matmul(rhs)
+            r2.sum().backward()
+        finally:
+            for t in leaf + [rhs]:
+                t.requires_grad_(False)
+                t.grad = None
+        return None
+
+    @reg("root_inv_decomposition_lanczos_test_vectors", psd=True)
+    def _(op, D, L, A):
+        A["init"] = D.mat(*bshape(op), n_of(op), 1)
+        A["test"] = D.mat(*bshape(op), n_of(op), 3)
+        with settings.max_cholesky_size(0):
+            return op.root_inv_decomposition(initial_vectors=A["init"], test_vectors=A["test"], method="lanczos").root.to_dense()
+
+    @reg("solve_precond_closure", psd=True)
+    def _(op, D, L, A):
+        A["rhs"] = L(D.mat(n_of(op), 2))
+        with settings.max_cholesky_size(0), settings.max_cg_iterations(25):
+            return op._solve(A["rhs"].expand(*bshape(op), n_of(op), 2), preconditioner=lambda x: x, num_tridiag=0)
+
+    @reg("solve_tridiag", psd=True)
+    def _(op, D, L, A):
+        A["rhs"] = L(D.mat(n_of(op), 3))
+        with settings.max_cholesky_size(0), settings.max_cg_iterations(25):
+            return op._solve(A["rhs"].expand(*bshape(op), n_of(op), 3), preconditioner=None, num_tridiag=2)
+
+    @reg("add_diagonal_expanded_scalar")
+    def _(op, D, L, A):
+        A["d"] = D.pos(1).expand(n_of(op))
+        A["d1"] = D.pos(1)
+        return op.add_diagonal(A["d"]).to_dense() + op.add_diagonal(A["d1"]).to_dense()
+
+    @reg("ciq_given_shifts", psd=True)
+    def _(op, D, L, A):
+        import importlib
+        ciq = importlib.import_module("linear_operator.utils.contour_integral_quad").contour_integral_quad
+        A["rhs"] = L(D.mat(n_of(op), 2))
+        with settings.max_cholesky_size(0):
+            s0, w, _, sh = ciq(op, A["rhs"], inverse=True, num_contour_quadrature=5, max_lanczos_iter=5)
+            A["w"], A["sh"] = w.clone(), sh.clone()
+            return ciq(op, A["rhs"], inverse=True, weights=A["w"], shifts=A["sh"], num_contour_quadrature=5,
+                       max_lanczos_iter=5, shift_offset=0.25)
+
     return OPS
 
 
@@ -824,11 +1035,125 @@ def utilities():
         with settings.max_cholesky_size(0):
             return ciq_m.contour_integral_quad(O.DenseLinearOperator(A["M"]), A["rhs"], max_lanczos_iter=5, num_contour_quadrature=5)
 
+    @reg("contour_integral_quad_given_shifts_offset")
+    def _(D, L, A):
+        A["M"], A["rhs"] = L(D.psd(6)), L(D.mat(6, 2))
+        op = O.DenseLinearOperator(A["M"])
+        with settings.max_cholesky_size(0):
+            s, w, _, sh = ciq_m.contour_integral_quad(op, A["rhs"], inverse=True, max_lanczos_iter=5, num_contour_quadrature=5)
+            A["w"], A["sh"] = w.clone(), sh.clone()
+            r1 = ciq_m.contour_integral_quad(op, A["rhs"], inverse=True, weights=A["w"], shifts=A["sh"], max_lanczos_iter=5,
+                                             num_contour_quadrature=5, shift_offset=0.5)
+            r2 = ciq_m.contour_integral_quad(op, A["rhs"], inverse=False, weights=A["w"], shifts=A["sh"], max_lanczos_iter=5,
+                                             num_contour_quadrature=5, shift_offset=0)
+            return r1
+
+    @reg("contour_integral_quad_offset")
+    def _(D, L, A):
+        A["M"], A["rhs"] = L(D.psd(6)), L(D.mat(6, 2))
+        with settings.max_cholesky_size(0):
+            return ciq_m.contour_integral_quad(O.DenseLinearOperator(A["M"]), A["rhs"], inverse=True, max_lanczos_iter=5,
+                                               num_contour_quadrature=5, shift_offset=0.5)
+
+    @reg("linear_cg_identity_precond_broadcast_guess")
+    def _(D, L, A):
+        A["mat"], A["rhs"], A["guess"] = L(D.psd(6)), L(D.mat(6, 3)), L(D.mat(6, 1))
+        return cg_m.linear_cg(A["mat"].matmul, A["rhs"], n_tridiag=3, max_iter=20, max_tridiag_iter=6, initial_guess=A["guess"],
+                              preconditioner=lambda x: x, tolerance=1e-9)
+
+    @reg("linear_cg_identity_closure_exact_guess")
+    def _(D, L, A):
+        # matmul closure returns its argument, the guess is already the solution (early exit path), rhs vector-like
+        A["rhs"] = L(D.mat(6, 2))
+        A["guess"] = A["rhs"]
+        return cg_m.linear_cg(lambda x: x, A["rhs"], max_iter=5, max_tridiag_iter=2, initial_guess=A["guess"])
+
+    @reg("linear_cg_closure_returns_argument")
+    def _(D, L, A):
+        A["rhs"], A["guess"] = L(D.mat(6, 2)), L(D.mat(6, 2))
+        return cg_m.linear_cg(lambda x: x, A["rhs"], n_tridiag=1, max_iter=5, max_tridiag_iter=2, initial_guess=A["guess"],
+                              preconditioner=lambda x: x)
+
+    @reg("linear_cg_no_iterations")
+    def _(D, L, A):
+        A["mat"], A["rhs"], A["guess"] = L(D.psd(6)), L(D.mat(6, 2)), L(D.mat(6, 2))
+        return cg_m.linear_cg(A["mat"].matmul, A["rhs"], max_iter=0, max_tridiag_iter=0, initial_guess=A["guess"])
+
+    @reg("minres_identity_precond_closure")
+    def _(D, L, A):
+        A["mat"], A["rhs"] = L(D.psd(6)), L(D.mat(6, 2))
+        A["shifts"] = torch.tensor([0.0, 1.0], dtype=torch.float64)
+        return minres_m.minres(A["mat"].matmul, A["rhs"], shifts=A["shifts"], max_iter=12, preconditioner=lambda x: x)
+
+    @reg("minres_closure_returns_argument_zero_rhs")
+    def _(D, L, A):
+        A["rhs"] = L(torch.cat([D.mat(6, 1), torch.zeros(6, 1, dtype=torch.float64)], -1))
+        A["shifts"] = torch.tensor([0.5], dtype=torch.float64)
+        return minres_m.minres(lambda x: x, A["rhs"], shifts=A["shifts"], max_iter=4, value=1.0)
+
+    @reg("lanczos_tridiag_single_init_vec_closure_identity")
+    def _(D, L, A):
+        A["init"] = L(D.mat(6, 1))
+        bs = A["init"].shape[:-2]
+        return lanczos.lanczos_tridiag(lambda x: x, 3, dtype=torch.float64, device=A["init"].device, matrix_shape=torch.Size([6, 6]),
+                                       batch_shape=bs, init_vecs=A["init"])
+
+    @reg("lanczos_tridiag_unit_norm_init")
+    def _(D, L, A):
+        v = D.mat(6, 2)
+        A["mat"], A["init"] = L(D.psd(6)), L(v / v.norm(dim=-2, keepdim=True))
+        m = A["mat"]
+        return lanczos.lanczos_tridiag(m.matmul, 6, dtype=m.dtype, device=m.device, matrix_shape=m.shape[-2:],
+                                       batch_shape=m.shape[:-2], init_vecs=A["init"], tol=1e-12)
+
+    @reg("psd_safe_cholesky_out")
+    def _(D, L, A):
+        A["A"] = L(D.psd())
+        out = torch.empty(A["A"].shape, dtype=torch.float64)      # explicit out= buffer: allowed to change (not registered)
+        return chol_m.psd_safe_cholesky(A["A"], out=out)
+
+    @reg("psd_safe_cholesky_out_jitter_upper")
+    def _(D, L, A):
+        v = D.mat(5, 2)
+        A["A"] = L(v @ v.T)
+        out = torch.empty(A["A"].shape, dtype=torch.float64)
+        try:
+            return chol_m.psd_safe_cholesky(A["A"], upper=True, out=out, jitter=1e-4, max_tries=8)
+        except Exception:
+            return None
+
+    @reg("toeplitz_matmul_vector_and_batch")
+    def _(D, L, A):
+        c = D.mat(5)
+        r = D.mat(5)
+        r[0] = c[0]
+        A["c"], A["r"], A["t"] = L(c), L(r), L(D.mat(5, 1))
+        return toeplitz.toeplitz_matmul(A["c"], A["r"], A["t"])
+
+    @reg("left_interp_vector_rhs")
+    def _(D, L, A):
+        A["idx"], A["val"], A["rhs"] = torch.tensor([[0, 1], [1, 2], [2, 3]]), D.pos(3, 2), L(D.mat(4))
+        if A["rhs"].dim() > 1:
+            A["rhs"] = A["rhs"][0]
+        return interpolation.left_interp(A["idx"], A["val"], A["rhs"])
+
+    @reg("left_t_interp_batch")
+    def _(D, L, A):
+        A["idx"] = torch.tensor([[0, 1], [1, 2], [2, 3]]).expand(2, 3, 2)
+        A["val"], A["rhs"] = D.pos(2, 3, 2), D.mat(2, 3, 2)
+        return interpolation.left_t_interp(A["idx"], A["val"], A["rhs"], 4)
+
     return U
 
 
 # ----------------------------------------------------------------------------- one case
 BUILDERS = OPS = UTILS = None
+NESTED = set()     # builders of Identity/Zero-based nestings
+# operations run on the nestings in the quick tier (everything in thorough)
+NESTED_QUICK_OPS = {"matmul", "matmul_vec", "rmatmul", "t_matmul", "solve", "solve_left", "solve_cg", "solve_vec_cg", "inv_quad",
+                    "inv_quad_logdet", "inv_quad_logdet_cg", "sqrt_inv_matmul", "backward_sqrt_inv_matmul", "root_decomposition_lanczos",
+                    "add_low_rank", "zero_mean_mvn_samples", "diagonalization_lanczos", "backward_solve_cg", "backward_inv_quad_logdet",
+                    "matmul_identity_rhs", "root_inv_decomposition_lanczos", "pivoted_cholesky", "mul_op"}
 
 
 def _init_tables():
@@ -900,6 +1225,8 @@ def execute(kind, name, opname, layout, seed):
         except Exception as e:
             problems.append(f"operator: to_dense() raises after the call: {type(e).__name__}")
     for rel, line, opn, p, pname in wl.writes:
+        if rel is None:
+            continue        # harness-level op (no library frame on the stack)
         if pname is not None and not any(x.startswith(pname.split('.indices')[0].split('.values')[0]) for x in problems):
             problems.append(f"{pname}: aten write {opn} into the caller's storage at {rel}:{line}")
     return {"status": status, "problems": problems, "writes": wl.writes, "born": wl.born}
@@ -986,6 +1313,8 @@ def run(chk, only=None):
     for name, (f, psd) in BUILDERS.items():
         for opname, (needs_psd, g) in OPS.items():
             if needs_psd and not psd:
+                continue
+            if name in NESTED and not thorough and opname not in NESTED_QUICK_OPS:
                 continue
             lay = LAYOUTS if thorough else ["slice", chk.rng.choice(LAYOUTS[:3])]
             for layout in lay:
